@@ -85,6 +85,9 @@ type FileInfo struct {
 
 	SingleLine bool
 
+	// positionsDetected: DelimiterPositions were found from the spaces of the file when it was read.
+	positionsDetected bool
+
 	Handler *file.Handler
 
 	ForUpdate bool
@@ -215,6 +218,7 @@ func (f *FileInfo) SetDelimiterPositions(s string) error {
 
 	f.Format = format
 	f.DelimiterPositions = delimiterPositions
+	f.positionsDetected = false
 	f.SingleLine = singleLine
 
 	return nil
@@ -362,6 +366,12 @@ func (f *FileInfo) ExportOptions(tx *Transaction) option.ExportOptions {
 	ops.Format = f.Format
 	ops.Delimiter = f.Delimiter
 	ops.DelimiterPositions = f.DelimiterPositions
+	if f.positionsDetected {
+		// Positions found from the spaces of the file fit the contents it had then: the table is
+		// written with positions measured from its present contents, separated by spaces, so that
+		// it can be read the same way again.
+		ops.DelimiterPositions = nil
+	}
 	ops.SingleLine = f.SingleLine
 	ops.Encoding = f.Encoding
 	ops.LineBreak = f.LineBreak
